@@ -26,7 +26,10 @@ static Sys make_sys(int n, hx::Rng &rng, bool spd, int prec /*0 identity,1 diago
     s.Pd.assign(n,Vec(n,scalar(0))); for (int i=0;i<n;++i) for (int j=0;j<n;++j) { if (prec==0) s.Pd[i][j]=scalar(i==j?1:0); else if (prec==1) s.Pd[i][j]= i==j ? scalar(1)/s.Ad[i][i] : scalar(0); else s.Pd[i][j] = i==j ? scalar(1)/s.Ad[i][i] : (spd ? scalar((1+(i+j)%3))/scalar(64) : scalar(((i*3+j)%5)-2)/scalar(32)); }
     if (prec==2 && spd) for (int i=0;i<n;++i) for (int j=0;j<i;++j) s.Pd[i][j]=s.Pd[j][i];
     s.P.n=n; s.P.P=s.Pd; s.P.A=s.Am; scalar t=var("t",0.375); for (int i=0;i<n;++i) { int q1=1+r2.below(5), q2=r2.below(7)-3, q3=r2.below(5)-2, q4=r2.below(5)-2; /* sequenced: operand evaluation order differs between the sym and the double build */ s.f.push_back(scalar(q1)/scalar(2) + t*scalar(q2)/scalar(4)); s.x0.push_back(scalar(q3)/scalar(4) + t*scalar(q4)/scalar(2)); } return s; }
-template<class S> static std::tuple<size_t,scalar,Vec> solve(const Sys &s, typename S::params prm, int k) { prm.maxiter=k; prm.tol=scalar(0); prm.abstol=scalar(0); S sol(s.n,prm); NV F=hx::to_numa(s.f), X=hx::to_numa(s.x0); size_t it; scalar res; std::tie(it,res)=sol(*s.Am,s.P,F,X); return std::make_tuple(it,res,hx::to_vec(X)); }
+template<class S> static std::tuple<size_t,scalar,Vec> solve(const Sys &s, typename S::params prm, int k) { prm.maxiter=k; prm.tol=scalar(0); prm.abstol=scalar(0); S sol(s.n,prm); NV F=hx::to_numa(s.f), X=hx::to_numa(s.x0); size_t it; scalar res; std::tie(it,res)=sol(*s.Am,s.P,F,X);
+    // the k-th iterate is a function of (A, P, f, x0, k) only: the same call on the now USED object performs the same operations
+    { NV X2=hx::to_numa(s.x0); size_t it2; scalar res2; std::tie(it2,res2)=sol(*s.Am,s.P,F,X2); bool same = it2==it && hx::same_handle(res2,res); for (int i=0;i<s.n;++i) same=same&&hx::same_handle(X2[i],X[i]); hx::require("the k-th iterate does not depend on earlier solves with the same object (second identical call: identical operations)", same); }
+    return std::make_tuple(it,res,hx::to_vec(X)); }
 // Krylov vectors v_j = (M)^j v0
 static std::vector<Vec> krylov(const Mat &M1, const Mat &M2, Vec v, int k) { std::vector<Vec> K; for (int j=0;j<k;++j) { K.push_back(v); v=mv(M1,mv(M2,v)); } return K; }
 static Mat ident(int n) { Mat I(n,Vec(n,scalar(0))); for (int i=0;i<n;++i) I[i][i]=scalar(1); return I; }
